@@ -50,6 +50,7 @@ type Exec struct {
 	Forks      int
 	Instrs     int
 	PermuteMaps bool
+	NoArrMaps  bool
 	Params     map[string]int
 	Known      []KnownPred
 	Notes      []string
@@ -110,6 +111,14 @@ func (ex *Exec) outcome(kind, msg string, site ssa.Instruction, cond *smt.Term) 
 	pos := ""
 	if site != nil {
 		p := ex.Prog.Fset.Position(site.Pos())
+		if !p.IsValid() && site.Block() != nil {
+			for _, in := range site.Block().Instrs {
+				if q := ex.Prog.Fset.Position(in.Pos()); q.IsValid() {
+					p = q
+					break
+				}
+			}
+		}
 		if !p.IsValid() && site.Parent() != nil {
 			p = ex.Prog.Fset.Position(site.Parent().Pos())
 		}
@@ -407,6 +416,9 @@ func (ex *Exec) CallFn(st *State, site ssa.Instruction, fn *ssa.Function, args [
 		panic(unsupported("call depth exceeded at " + name))
 	}
 	ex.Encoded[name] = true
+	if ex.Trace && depth <= 3 {
+		println("CALL", depth, name, smt.NumTerms)
+	}
 	fr := &Frame{fn: fn, regs: make(map[ssa.Value]Value, 64), visits: map[*ssa.BasicBlock]int{}, depth: depth + 1}
 	if len(args) != len(fn.Params) {
 		panic(unsupported(fmt.Sprintf("arity mismatch calling %s: %d args, %d params", name, len(args), len(fn.Params))))
@@ -566,11 +578,15 @@ func (ex *Exec) run(st *State, fr *Frame, b *ssa.BasicBlock, pred *ssa.BasicBloc
 		if !phisDone {
 			ex.evalPhis(fr, b, pred)
 		}
-		if b == stop {
+		startIdx := fr.startIdx
+		fr.startIdx = 0
+		if b == stop && startIdx == 0 {
 			return
 		}
 		phisDone = false
-		fr.visits[b]++
+		if startIdx == 0 {
+			fr.visits[b]++
+		}
 		if fr.visits[b] > ex.MaxVisits {
 			ex.outcome("unwind", "block visit limit", b.Instrs[0], st.pc)
 			st.kill()
@@ -579,7 +595,8 @@ func (ex *Exec) run(st *State, fr *Frame, b *ssa.BasicBlock, pred *ssa.BasicBloc
 		var next *ssa.BasicBlock
 		jumped := false
 	instrLoop:
-		for _, instr := range b.Instrs {
+		for idx := startIdx; idx < len(b.Instrs); idx++ {
+			instr := b.Instrs[idx]
 			if st.dead {
 				return
 			}
@@ -587,6 +604,51 @@ func (ex *Exec) run(st *State, fr *Frame, b *ssa.BasicBlock, pred *ssa.BasicBloc
 			switch in := instr.(type) {
 			case *ssa.Phi:
 				continue
+			case *ssa.Range:
+				ch, isChoice := ex.val(fr, in.X).(*ChoiceV)
+				if ex.Trace {
+					println("RANGE", describe(ex.val(fr, in.X)), smt.NumTerms)
+				}
+				if !isChoice {
+					ex.step(st, fr, instr)
+					continue
+				}
+				// range over a choice of maps: split the paths here (each alternative iterates a concrete map)
+				// and merge at the post-dominator of this block
+				ip := ex.ipdoms(fr.fn)[b.Index]
+				// the split must cover the whole loop: merge at the post-dominator of the block holding Next
+				if refs := in.Referrers(); refs != nil {
+					for _, r := range *refs {
+						if nx, ok := r.(*ssa.Next); ok && nx.Block() != nil {
+							ip = ex.ipdoms(fr.fn)[nx.Block().Index]
+						}
+					}
+				}
+				ex.Forks++
+				s1, f1 := st.fork(ch.C), fr.clone()
+				s2, f2 := st.fork(smt.Not(ch.C)), fr.clone()
+				f1.regs[in.X], f1.startIdx = ch.A, idx
+				f2.regs[in.X], f2.startIdx = ch.B, idx
+				if !s1.dead {
+					ex.run(s1, f1, b, nil, ip, true)
+				}
+				if !s2.dead {
+					ex.run(s2, f2, b, nil, ip, true)
+				}
+				mergeFrames(fr, ch.C, s1, s2, f1, f2)
+				mergeStates(st, ch.C, s1, s2)
+				if st.dead || fr.returned {
+					return
+				}
+				if ip == nil {
+					panic(unsupported("paths fell off region without return in " + fr.fn.String()))
+				}
+				if ip == stop {
+					return
+				}
+				b, pred, phisDone = ip, nil, true
+				jumped = true
+				break instrLoop
 			case *ssa.Jump:
 				next = b.Succs[0]
 			case *ssa.If:
@@ -604,7 +666,8 @@ func (ex *Exec) run(st *State, fr *Frame, b *ssa.BasicBlock, pred *ssa.BasicBloc
 				}
 				// symbolic fork
 				key := symKey(b)
-				fr.visits[key]++
+				depth := fr.visits[key] // nesting depth of unfinished symbolic decisions at this block
+				fr.visits[key] = depth + 1
 				if fr.visits[key] > ex.Unwind {
 					ex.outcome("unwind", fmt.Sprintf("unwinding bound %d reached", ex.Unwind), in, st.pc)
 					st.kill()
@@ -622,6 +685,7 @@ func (ex *Exec) run(st *State, fr *Frame, b *ssa.BasicBlock, pred *ssa.BasicBloc
 				}
 				mergeFrames(fr, c, s1, s2, f1, f2)
 				mergeStates(st, c, s1, s2)
+				fr.visits[key] = depth
 				if st.dead || fr.returned {
 					return
 				}
@@ -664,7 +728,11 @@ func (ex *Exec) run(st *State, fr *Frame, b *ssa.BasicBlock, pred *ssa.BasicBloc
 				st.kill()
 				return
 			default:
+				n0 := smt.NumTerms
 				ex.step(st, fr, instr)
+				if ex.Trace && smt.NumTerms-n0 > 5000 {
+					println("BIG", fr.fn.Name(), instr.String(), smt.NumTerms-n0)
+				}
 			}
 		}
 		if jumped {
@@ -843,7 +911,7 @@ func (ex *Exec) step(st *State, fr *Frame, instr ssa.Instruction) {
 		})
 	case *ssa.MakeMap:
 		mt := in.Type().Underlying().(*types.Map)
-		id := ex.newObj(st, &MapC{KT: mt.Key(), VT: mt.Elem()})
+		id := ex.newObj(st, ex.newMapC(mt))
 		fr.regs[in] = &MapV{Obj: id}
 	case *ssa.MakeChan:
 		sz := ex.val(fr, in.Size).(*smt.Term)
@@ -876,6 +944,9 @@ func (ex *Exec) step(st *State, fr *Frame, instr ssa.Instruction) {
 		fr.regs[in] = ex.rangeStart(st, in, ex.val(fr, in.X))
 	case *ssa.Next:
 		fr.regs[in] = ex.rangeNext(st, in, ex.val(fr, in.Iter))
+		if ex.Trace {
+			println("NEXT", fr.fn.Name(), smt.NumTerms, len(st.heap))
+		}
 	case *ssa.Send:
 		ch := ex.val(fr, in.Chan)
 		v := ex.val(fr, in.X)
